@@ -21,6 +21,7 @@ RULE = ("seeded cosmologies: flat (omega_m in (0,1.5]), open / closed (omega_k i
 TRUSTED = ["scipy.integrate.quad (epsrel 1e-13) as the value of the defining integrals", "numpy.polynomial.legendre.leggauss as the documented 5/10-point rule"]
 ASSUMPTIONS = ["cosmologies whose E^2 falls below 0.01 on [0,5] are discarded", "flat=True is not combined with a non-zero omega_k",
                "the lensing constant is the documented 6.0150504541630152e-07"]
+THOROUGH_ROUNDS = 2      # the thorough tier runs the generator over this many derived seeds
 REQUIRED = {"quick": {"C11.value": 6000, "C11.identity": 1500, "C11.vector": 1500, "C11.params": 200, "C11.copy": 150, "C11.band": 100},
             "thorough": {"C11.value": 120000, "C11.identity": 30000, "C11.vector": 30000, "C11.params": 4000, "C11.copy": 3000, "C11.band": 2000}}
 WATCHDOG = {"quick": 900, "thorough": 7200}
